@@ -803,6 +803,7 @@ class Exec:
         self.index_var = None      # the generic index of arange-derived arrays (spec['index_var'])
         self.mesh_vars = None      # the generic (row, column) indices of np.meshgrid results (spec['mesh_vars'])
         self.call_obs = {}         # label -> values of the arguments of the observed calls
+        self.call_named = {}       # <label>_<target name> -> arguments of the observed call bound to that name
         self.guards = []           # conditions under which the statement being executed raises IndexError
         self.retk = []             # return continuations of the calls being executed "with exits"
         self.globals_cache = {}    # (module prefix, name) -> value of a module-level constant
@@ -1450,6 +1451,11 @@ class Exec:
                     except _Unsup as e:
                         v = Opaque(f'arguments of {pat} at line {n.lineno}: {e}')
                 self.call_obs.setdefault(label, []).append(v)
+                # `x = f(...)`: also observable under the name it is bound to (<label>_x), which does not depend
+                # on the order of the statements
+                if isinstance(s, ast.Assign) and len(s.targets) == 1 and isinstance(s.targets[0], ast.Name) \
+                        and s.value is n:
+                    self.call_named[f'{label}_{s.targets[0].id}'] = v
 
     def opaque_stmt(self, s, env, why):
         self.record_calls(s, env)
@@ -1774,6 +1780,7 @@ class Exec:
             for label, vals in self.call_obs.items():
                 for i, v in enumerate(vals):
                     env[f'{label}_{i}'] = v
+            env.update(self.call_named)
         try:
             v = self.ev(self.spec['observe_ast'], env)
             return self.leaf_value(v, where)
@@ -3140,7 +3147,7 @@ SPECS_C15 = [
     dict(name='pad_linspace', file=RAD, func='Spectrum.pad', kwarg='kwargs',
          params={'self': OPAQUE_K, 'ends': SEQ(2), 'sampling': OPAQUE_K, 'mode': STR('constant')},
          assume={'dwave': Z_POS, 'minwave': Z_K, 'maxwave': Z_K}, rationals=True,
-         observe_calls={'LINSPACE': 'np.linspace'}, observe='(LINSPACE_0, LINSPACE_1)', end='obs', returns=[],
+         observe_calls={'LINSPACE': 'np.linspace'}, observe='(LINSPACE_leftwave, LINSPACE_rightwave)', end='obs', returns=[],
          rtype=TT(TZn(3), TZn(3)),
          doc="Spectrum.pad(ends, sampling, mode='constant') on an INTEGER wavelength grid: with dwave = "
              '_sampling(self.wave, sampling) > 0, minwave, maxwave = self.wave.min(), self.wave.max() as integer '
@@ -3151,7 +3158,7 @@ SPECS_C15 = [
     dict(name='pad_linspace_edge', file=RAD, func='Spectrum.pad', kwarg='kwargs',
          params={'self': OPAQUE_K, 'ends': SEQ(2), 'sampling': OPAQUE_K, 'mode': STR('edge')},
          assume={'dwave': Z_POS, 'minwave': Z_K, 'maxwave': Z_K}, rationals=True,
-         observe_calls={'LINSPACE': 'np.linspace'}, observe='(LINSPACE_0, LINSPACE_1)', end='obs', returns=[],
+         observe_calls={'LINSPACE': 'np.linspace'}, observe='(LINSPACE_leftwave, LINSPACE_rightwave)', end='obs', returns=[],
          rtype=TT(TZn(3), TZn(3)), doc="the same for mode='edge'",
          fallback='((fst ends, minwave, ' + _CEILD.format(a='minwave - fst ends', d='dwave') + ' + 1), '
                   '(maxwave, snd ends, ' + _CEILD.format(a='snd ends - maxwave', d='dwave') + ' + 1))'),
@@ -3160,7 +3167,7 @@ SPECS_C13 = [
     dict(name='common_grid_linspace', file=RAD, func='_interp_common',
          params={'s1': OPAQUE_K, 's2': OPAQUE_K, 'sampling': OPAQUE_K, 'method': OPAQUE_K, 'fill_value': OPAQUE_K},
          assume={'minwave': Z_K, 'maxwave': Z_K, 'dwave': Z_POS}, rationals=True,
-         observe_calls={'LINSPACE': 'np.linspace'}, observe='LINSPACE_0', rtype=TZn(3),
+         observe_calls={'LINSPACE': 'np.linspace'}, observe='LINSPACE_commonwave', rtype=TZn(3),
          doc='_interp_common(s1, s2, sampling, ...) on INTEGER wavelength grids: with minwave, maxwave (the common '
              'range) and dwave = _sampling(...) > 0 as integer arguments, the arguments (start, stop, num + 1) of the '
              'np.linspace call that builds the common grid, num = int(np.ceil((maxwave - minwave)/dwave))',
@@ -3170,12 +3177,12 @@ SPECS_C13 = [
 # ---------------------------------------------------------------------- C19: the frequency axes of the blur kernels
 CNV = 'lentil/convolvable.py'
 _DETP = 'lentil/detector.py'
-_FREQ = dict(observe_calls={'FREQ': 'np.fft.fftfreq'}, observe='(FREQ_0[0], FREQ_1[0])', rtype=TZn(2),
+_FREQ = dict(observe_calls={'FREQ': 'np.fft.fftfreq'}, observe='(FREQ_x[0], FREQ_y[0])', rtype=TZn(2),
              fallback='(snd img_shape, fst img_shape)')
 SPECS_C19 = [
     dict(_FREQ, name='pixel_freq_sizes', file=_DETP, func='pixel', params={'img': ARR(2), 'oversample': OPAQUE_K},
          doc='detector.pixel(img, oversample) for a 2-d img: the lengths handed to the two np.fft.fftfreq calls, in '
-             'order (x first: the COLUMN count, then y: the ROW count)'),
+             'the order (x, y) of the names they are bound to (x: the COLUMN count, y: the ROW count)'),
     dict(_FREQ, name='jitter_freq_sizes', file=CNV, func='jitter',
          params={'img': ARR(2), 'scale': OPAQUE_K, 'pixelscale': OPAQUE_K, 'oversample': OPAQUE_K},
          doc='jitter(img, scale, pixelscale, oversample): the lengths handed to the two np.fft.fftfreq calls (x, y)'),
@@ -3220,7 +3227,8 @@ SPECS_C16 = [
          params={'img': ARR(3), 'wave': OPAQUE_K, 'qe_red': OPAQUE_K, 'qe_green': OPAQUE_K, 'qe_blue': OPAQUE_K,
                  'bayer_pattern': OPAQUE_K, 'oversample': Z_POS, 'waveunit': OPAQUE_K, 'flatten': OPAQUE_K},
          assume={'red_kernel': ('ARR', 2, 'pos'), 'green_kernel': ('ARR', 2, 'pos'), 'blue_kernel': ('ARR', 2, 'pos')},
-         observe_calls={'TILE': 'np.tile'}, observe='(nrow, ncol, TILE_0[1], TILE_1[1], TILE_2[1])',
+         observe_calls={'TILE': 'np.tile'},
+         observe='(nrow, ncol, TILE_red_mosaic[1], TILE_green_mosaic[1], TILE_blue_mosaic[1])',
          rtype=TT(TZ, TZ, TZn(2), TZn(2), TZn(2)),
          doc='collect_charge_bayer for a 3-d img and oversample > 0, with the shapes of the three colour kernels '
              '(np.where(bayer_pattern == ch, 1, 0)) as arguments: nrow, ncol and the repetition counts passed to the '
@@ -4503,22 +4511,11 @@ def _drv_freq_sizes(modname, fn, nargs):
         import numpy as np
         if not (1 <= min(ish) and max(ish) <= 12):
             return SKIP
-        calls, orig = [], np.fft.fftfreq
-
-        def rec(*a, **k):
-            if sys._getframe(1).f_code.co_name == fn:
-                calls.append(a)
-            return orig(*a, **k)
-        np.fft.fftfreq = rec
-        try:
-            getattr(getattr(L, modname), fn)(np.ones(ish), *([1.0] * nargs))
-        except Exception:      # noqa: BLE001
-            pass
-        finally:
-            np.fft.fftfreq = orig
-        if len(calls) != 2:
+        f = getattr(getattr(L, modname), fn)
+        loc, r = _trace_locals(f, fn, f'lentil/{modname}.py', np.ones(ish), *([1.0] * nargs))
+        if loc is None or 'x' not in loc or 'y' not in loc:
             return SKIP
-        return (int(calls[0][0]), int(calls[1][0]))
+        return (len(loc['x']), len(loc['y']))          # the lengths of the frequency vectors the code built
     return drv
 
 
